@@ -39,12 +39,14 @@ CLAIMED = {
         design="6/C14", technique="Lean 4 proof of total decision tables + exhaustive differential correspondence on small shapes"),
     "C15": dict(
         text="Lean theorems for all admissible shapes: v1 pack/unpack round trip with and without column reordering (order lists regenerated from the source and checked inverse by decide), v2 pack equals the reference packer, v2 round trip, "
-             "zero-point recovery and back conversion of AWQBitsTensor to the standard representation, bound between the AWQ and standard dequantization. Correspondence on CPU (modules run with asserts off): the complete position permutation of every shape N<=32, K<=512 recovered from index-encoding inputs, random matrices, bit identity with external/awq/pack_intweight.py, AWQBitsTensor construction/dequantize/qbits_tensor bit-exact.",
+             "zero-point recovery and back conversion of AWQBitsTensor to the standard representation, bound between the AWQ and standard dequantization. Correspondence on CPU (modules run with asserts off): the complete position permutation of every shape N<=32, K<=512 recovered from index-encoding inputs, random matrices, bit identity with external/awq/pack_intweight.py, AWQBitsTensor construction/dequantize/qbits_tensor bit-exact. "
+             "Selection of the optimised representation: the condition of QBitsTensor.create is re-extracted from the source text on every run and proved equal to the closed form the theorems use (off-CUDA results are standard, selected shapes with a multiple of 4 rows are admissible, counter-example for the others); create/optimize exercised on a stand-in CUDA device.",
         design="6/C15", technique="Lean 4 proof of index-map bijections + regenerated tables + differential correspondence (python -O on CPU)"),
     "C05": dict(
         text="Lean theorems: every data-movement op commutes with dequantization for per-tensor tensors (gather commutes with elementwise maps), lifted to movement programs of any length by induction; per-axis tensors dequantize first by definition; cat/stack/split commute under equal scales; neg/relu commute under explicit guards; "
              "scalar mul/div differ from the reference by a proved rounding allowance; softmax/where re-quantization is the symmetric quantizer (C01 nearest-point bound applies); integer mm is the exact sum and cannot overflow int32; no spurious raise for movement ops; counter-example theorems for repaired and recorded defects. "
-             "Each dispatched function is transcribed in the model and compared with the implementation after every step of typed random programs (codes, scale bits, metadata, exception class); the relation with the float reference on the dequantized operands is evaluated on the implementation.",
+             "Each dispatched function is transcribed in the model and compared with the implementation after every step of typed random programs (codes, scale bits, metadata, exception class); the relation with the float reference on the dequantized operands is evaluated on the implementation. "
+             "In-place writes: a storage-cell model of payload / scale sharing with proved independence / view-following / change theorems, tied by reading the sharing off the storage pointers of every two-step aliasing program.",
         design="6/C05", technique="Lean 4 proof over a transcription of the dispatch table + per-step differential correspondence on random programs"),
     "C06": dict(
         text="Lean theorems: the well-formedness invariant (payload shape = reported size, scale shaped along the declared axis, storage dtype of the qtype, outer dtype = scale dtype) holds for the quantizers' outputs and is preserved by every intercepted op returning a quantized value, hence for all reachable values by induction over programs; "
@@ -52,7 +54,7 @@ CLAIMED = {
         design="6/C06", technique="Lean 4 invariant proof by induction over op programs + executable predicate evaluated on implementation values"),
     "C07": dict(
         text="Lean theorems: total route tables of the CPU/CUDA/MPS implementations with their preconditions, agreement of the integer, int8-packed and float kernels for every accumulator and scale, exact factorisation of the scales out of the contraction, explicit three-rounding error bound of one output element, "
-             "output shape / batch flattening, int32 accumulator bound, counter-example for float8 x float8 in float16. Bit-exact correspondence of torch.nn.functional.linear on exact-arithmetic operand sets (all activation kinds x weight qtypes x dtypes x batch shapes x bias), kernels and route functions called directly with the route actually taken observed; realistic magnitudes against a float64 reference inside the accumulation envelope (validated, not proved).",
+             "output shape / batch flattening, int32 accumulator bound, counter-example for float8 x float8 in float16. Bit-exact correspondence of torch.nn.functional.linear on exact-arithmetic operand sets (all activation kinds x weight qtypes x dtypes x batch shapes x bias), kernels and route functions called directly with the route actually taken observed; realistic magnitudes against a float64 reference inside the accumulation envelope (validated, not proved); operands that are views (expanded, transposed storage, slices, odd offsets) run in a child process (layout is not modelled: validated only).",
         design="6/C07", technique="Lean 4 proof (decision tables + exact arithmetic + rounding bounds) + bit-exact correspondence on exact-arithmetic operand sets"),
     "C12": dict(
         text="Lean theorems over all batch histories and momenta: the code's update equals the exponential moving average initialised by the first batch whenever no intermediate value equals the sentinel 1 (counter-example theorem for the sentinel), adoption of a quantized input's scale, first-batch and momentum-0 laws, single-batch non-saturation from C03. "
